@@ -4,6 +4,7 @@
 use std::io::{BufRead, Write};
 
 mod stack;
+mod prog;
 
 fn main() {
     let args: Vec<String> = std::env::args().collect();
@@ -22,6 +23,12 @@ fn main() {
             for line in stdin.lock().lines() {
                 let line = line.unwrap();
                 writeln!(out, "{}", stack::step(&line)).unwrap();
+            }
+        }
+        "prog" => {
+            for line in stdin.lock().lines() {
+                let line = line.unwrap();
+                writeln!(out, "{}", prog::request(&line)).unwrap();
             }
         }
         _ => {
